@@ -498,6 +498,838 @@ Section Examples.
   Proof. reflexivity. Qed.
 End Examples.
 
+(* ------------------------------------------------------------------------------------------ *)
+(* 3. unbounded generator theorem: strictly increasing a, b with equal end points, no force     *)
+(*    phase 1 invariant (Inv) -> Shape of (c, d) -> phase 2 collects the runs between the       *)
+(*    positions of consecutive b-values -> every run passes check_out                          *)
+(* ------------------------------------------------------------------------------------------ *)
+(* ---------- generic helpers ---------- *)
+Section Mono.
+  Variable f : nat -> Z.
+  Variable k : nat.
+  Hypothesis Hadj : forall t, (t < k)%nat -> f t < f (S t).
+  Lemma mono_lt : forall t' t, (t < t')%nat -> (t' <= k)%nat -> f t < f t'.
+  Proof.
+    induction t' as [|t' IH]; intros t Hlt Hle; [lia|].
+    destruct (Nat.eq_dec t t') as [->|Hne]; [apply Hadj; lia|].
+    pose proof (IH t ltac:(lia) ltac:(lia)). pose proof (Hadj t' ltac:(lia)). lia.
+  Qed.
+  Lemma mono_le : forall t t', (t <= t')%nat -> (t' <= k)%nat -> f t <= f t'.
+  Proof.
+    intros t t' Hle Hk. destruct (Nat.eq_dec t t') as [->|Hne]; [lia|].
+    pose proof (mono_lt t' t ltac:(lia) Hk). lia.
+  Qed.
+  Lemma mono_inv_lt : forall t t', (t <= k)%nat -> (t' <= k)%nat -> f t < f t' -> (t < t')%nat.
+  Proof.
+    intros t t' Hk Hk' Hlt. destruct (le_lt_dec t' t) as [Hle|Hgt]; [|exact Hgt].
+    pose proof (mono_le t' t Hle Hk). lia.
+  Qed.
+  Lemma mono_inv_le : forall t t', (t <= k)%nat -> (t' <= k)%nat -> f t <= f t' -> (t <= t')%nat.
+  Proof.
+    intros t t' Hk Hk' Hlt. destruct (le_lt_dec t t') as [Hle|Hgt]; [exact Hle|].
+    pose proof (mono_lt t t' Hgt Hk). lia.
+  Qed.
+  Lemma mono_inj : forall t t', (t <= k)%nat -> (t' <= k)%nat -> f t = f t' -> t = t'.
+  Proof.
+    intros t t' Hk Hk' He.
+    pose proof (mono_inv_le t t' Hk Hk' ltac:(lia)). pose proof (mono_inv_le t' t Hk' Hk ltac:(lia)). lia.
+  Qed.
+End Mono.
+
+Lemma strict_adj : forall l t, strict_incr l = true -> (S t < length l)%nat -> nthZ l t < nthZ l (S t).
+Proof.
+  induction l as [|x l IH]; intros t Hs Hl; [cbn in Hl; lia|].
+  cbn [strict_incr] in Hs. apply andb_true_iff in Hs. destruct Hs as [H1 H2].
+  destruct t as [|t].
+  - destruct l as [|y l]; [cbn in Hl; lia|]. apply Z.ltb_lt in H1. exact H1.
+  - cbn [length] in Hl. apply (IH t H2). lia.
+Qed.
+
+Lemma strict_adj' : forall l, strict_incr l = true ->
+  forall t, (t < length l - 1)%nat -> nthZ l t < nthZ l (S t).
+Proof. intros l Hs t Ht. apply strict_adj; [exact Hs|lia]. Qed.
+
+Lemma lastZ_nth : forall l, lastZ l = nthZ l (length l - 1).
+Proof.
+  unfold lastZ, nthZ. induction l as [|x l IH]; [reflexivity|].
+  destruct l as [|y l]; [reflexivity|].
+  change (last (x :: y :: l) 0) with (last (y :: l) 0). rewrite IH.
+  cbn [length]. replace (S (S (length l)) - 1)%nat with (S (length l - 0)) by lia.
+  cbn [nth]. replace (S (length l) - 1)%nat with (length l - 0)%nat by lia. reflexivity.
+Qed.
+
+Lemma nthZ_app1 : forall l r t, (t < length l)%nat -> nthZ (l ++ r) t = nthZ l t.
+Proof. intros. unfold nthZ. apply app_nth1. assumption. Qed.
+Lemma nthZ_snoc : forall l x, nthZ (l ++ [x]) (length l) = x.
+Proof. intros. unfold nthZ. rewrite app_nth2 by lia. rewrite Nat.sub_diag. reflexivity. Qed.
+
+(* ---------- phase 1 ---------- *)
+Definition slice_ok (a c : list Z) (t : nat) (s : slice) : Prop :=
+  s_lo s = nthZ c t /\ s_hi s = nthZ c (S t) /\ s_closed s = false /\
+  (S (s_src s) < length a)%nat /\ nthZ a (s_src s) <= nthZ c t /\ nthZ c (S t) <= nthZ a (S (s_src s)).
+
+Record Inv (a b : list Z) (s : st1) : Prop := {
+  inv_i : (1 <= i1 s <= length a)%nat;
+  inv_j : (1 <= j1 s <= length b)%nat;
+  inv_len : length (c1 s) = S (length (d1 s));
+  inv_low : low1 s = nthZ (c1 s) (length (d1 s));
+  inv_lowa : nthZ a (i1 s - 1) <= low1 s;
+  inv_lowb : nthZ b (j1 s - 1) <= low1 s;
+  inv_lowab : low1 s = nthZ a (i1 s - 1) \/ low1 s = nthZ b (j1 s - 1);
+  inv_nexta : (i1 s < length a)%nat -> low1 s < nthZ a (i1 s);
+  inv_nextb : (j1 s < length b)%nat -> low1 s < nthZ b (j1 s);
+  inv_cmono : forall t, (t < length (d1 s))%nat -> nthZ (c1 s) t < nthZ (c1 s) (S t);
+  inv_sl : forall t, (t < length (d1 s))%nat -> slice_ok a (c1 s) t (nth t (d1 s) dslice);
+  inv_ina : forall i', (i' < i1 s)%nat -> exists t, (t <= length (d1 s))%nat /\ nthZ (c1 s) t = nthZ a i';
+  inv_inb : forall j', (j' < j1 s)%nat -> exists t, (t <= length (d1 s))%nat /\ nthZ (c1 s) t = nthZ b j' }.
+
+Lemma inv_step_gen : forall a b s i' j' x src,
+  Inv a b s ->
+  (i1 s <= i' <= length a)%nat -> (j1 s <= j' <= length b)%nat ->
+  low1 s < x ->
+  nthZ a (i' - 1) <= x -> nthZ b (j' - 1) <= x -> (x = nthZ a (i' - 1) \/ x = nthZ b (j' - 1)) ->
+  ((i' < length a)%nat -> x < nthZ a i') -> ((j' < length b)%nat -> x < nthZ b j') ->
+  (S src < length a)%nat -> nthZ a src <= low1 s -> x <= nthZ a (S src) ->
+  (forall i'', (i1 s <= i'' < i')%nat -> nthZ a i'' = x) ->
+  (forall j'', (j1 s <= j'' < j')%nat -> nthZ b j'' = x) ->
+  Inv a b {| i1 := i'; j1 := j'; low1 := x; c1 := c1 s ++ [x];
+             d1 := d1 s ++ [{| s_src := src; s_lo := low1 s; s_hi := x; s_closed := false |}] |}.
+Proof.
+  intros a b s i' j' x src I Hi Hj Hlx Hxa Hxb Hxab Hna Hnb Hsrc Hsa Hsx Hia Hjb.
+  destruct I as [Ii Ij Ilen Ilow Ilowa Ilowb Ilowab Inexta Inextb Icm Isl Iina Iinb].
+  constructor; cbn [i1 j1 low1 c1 d1]; try assumption; try lia.
+  - rewrite !app_length. cbn [length]. lia.
+  - rewrite app_length. cbn [length]. replace (length (d1 s) + 1)%nat with (length (c1 s)) by lia.
+    symmetry. apply nthZ_snoc.
+  - intros t Ht. rewrite app_length in Ht. cbn [length] in Ht.
+    destruct (Nat.eq_dec t (length (d1 s))) as [->|Hne].
+    + rewrite nthZ_app1 by lia. rewrite <- Ilow. rewrite <- Ilen, nthZ_snoc. exact Hlx.
+    + rewrite !nthZ_app1 by lia. apply Icm. lia.
+  - intros t Ht. rewrite app_length in Ht. cbn [length] in Ht.
+    destruct (Nat.eq_dec t (length (d1 s))) as [->|Hne].
+    + rewrite app_nth2 by lia. rewrite Nat.sub_diag. cbn [nth].
+      unfold slice_ok. cbn [s_lo s_hi s_closed s_src].
+      rewrite nthZ_app1 by lia. rewrite <- Ilow, <- Ilen, nthZ_snoc.
+      repeat split; try assumption; try lia.
+    + rewrite app_nth1 by lia. specialize (Isl t ltac:(lia)).
+      unfold slice_ok in *. rewrite !nthZ_app1 by lia. exact Isl.
+  - intros i'' Hi''. destruct (le_lt_dec (i1 s) i'') as [Hge|Hlt].
+    + exists (S (length (d1 s))). split; [rewrite app_length; cbn [length]; lia|].
+      rewrite <- Ilen, nthZ_snoc. symmetry. apply Hia. lia.
+    + destruct (Iina i'' Hlt) as [t [Ht Et]]. exists t. split; [rewrite app_length; lia|].
+      rewrite nthZ_app1 by lia. exact Et.
+  - intros j'' Hj''. destruct (le_lt_dec (j1 s) j'') as [Hge|Hlt].
+    + exists (S (length (d1 s))). split; [rewrite app_length; cbn [length]; lia|].
+      rewrite <- Ilen, nthZ_snoc. symmetry. apply Hjb. lia.
+    + destruct (Iinb j'' Hlt) as [t [Ht Et]]. exists t. split; [rewrite app_length; lia|].
+      rewrite nthZ_app1 by lia. exact Et.
+Qed.
+
+Definition step1 (a b : list Z) (s : st1) : st1 :=
+  let i := i1 s in let j := j1 s in
+  let ai := nthZ a i in let bj := nthZ b j in
+          if ai <? bj then
+            {| i1 := S i; j1 := j; low1 := ai; c1 := c1 s ++ [ai];
+               d1 := d1 s ++ [{| s_src := i - 1; s_lo := low1 s; s_hi := ai; s_closed := false |}] |}
+          else if ai >? bj then
+            {| i1 := i; j1 := S j; low1 := bj; c1 := c1 s ++ [bj];
+               d1 := d1 s ++ [{| s_src := i - 1; s_lo := low1 s; s_hi := bj; s_closed := false |}] |}
+          else
+            {| i1 := S i;
+               j1 := if ((length a =? i + 1)%nat || (ai <? nthZ a (i + 1)))%bool then S j else j;
+               low1 := bj; c1 := c1 s ++ [bj];
+               d1 := d1 s ++ [{| s_src := i - 1; s_lo := low1 s; s_hi := bj; s_closed := false |}] |}.
+
+Lemma phase1_unfold : forall f a b s,
+  phase1 (S f) a b s =
+  if ((i1 s <? length a)%nat && (j1 s <? length b)%nat)%bool then phase1 f a b (step1 a b s) else s.
+Proof. reflexivity. Qed.
+
+Lemma inv_step : forall a b s,
+  strict_incr a = true -> strict_incr b = true ->
+  Inv a b s -> (i1 s < length a)%nat -> (j1 s < length b)%nat ->
+  Inv a b (step1 a b s) /\
+  (i1 s <= i1 (step1 a b s))%nat /\ (j1 s <= j1 (step1 a b s))%nat /\
+  (i1 s + j1 s < i1 (step1 a b s) + j1 (step1 a b s))%nat.
+Proof.
+  intros a b s Ha Hb I Hi Hj. pose proof I as I0.
+  destruct I as [Ii Ij Ilen Ilow Ilowa Ilowb Ilowab Inexta Inextb Icm Isl Iina Iinb].
+  specialize (Inexta Hi). specialize (Inextb Hj).
+  assert (Hsrc : S (i1 s - 1) = i1 s) by lia.
+  assert (Han : (S (i1 s) < length a)%nat -> nthZ a (i1 s) < nthZ a (S (i1 s))) by (apply strict_adj; exact Ha).
+  assert (Hbn : (S (j1 s) < length b)%nat -> nthZ b (j1 s) < nthZ b (S (j1 s))) by (apply strict_adj; exact Hb).
+  unfold step1.
+  destruct (Z.ltb_spec (nthZ a (i1 s)) (nthZ b (j1 s))) as [Hlt|Hge].
+  - split; [|cbn [i1 j1]; lia].
+    apply inv_step_gen; try assumption; try lia;
+      rewrite ?Hsrc; replace (S (i1 s) - 1)%nat with (i1 s) by lia; try lia.
+    + intros i'' Hi''. replace i'' with (i1 s) by lia. reflexivity.
+  - destruct (Z.gtb_spec (nthZ a (i1 s)) (nthZ b (j1 s))) as [Hgt|Hle].
+    + split; [|cbn [i1 j1]; lia].
+      apply inv_step_gen; try assumption; try lia;
+        rewrite ?Hsrc; replace (S (j1 s) - 1)%nat with (j1 s) by lia; try lia.
+      * intros j'' Hj''. replace j'' with (j1 s) by lia. reflexivity.
+    + assert (Heq : nthZ a (i1 s) = nthZ b (j1 s)) by lia.
+      assert (Hc : ((length a =? i1 s + 1)%nat || (nthZ a (i1 s) <? nthZ a (i1 s + 1)))%bool = true).
+      { destruct (Nat.eqb_spec (length a) (i1 s + 1)) as [E|NE]; [reflexivity|].
+        cbn [orb]. apply Z.ltb_lt. replace (i1 s + 1)%nat with (S (i1 s)) by lia. apply Han. lia. }
+      rewrite Hc. split; [|cbn [i1 j1]; lia].
+      apply inv_step_gen; try assumption; try lia;
+        rewrite ?Hsrc; replace (S (i1 s) - 1)%nat with (i1 s) by lia;
+        replace (S (j1 s) - 1)%nat with (j1 s) by lia; try lia.
+      * intros i'' Hi''. replace i'' with (i1 s) by lia. lia.
+      * intros j'' Hj''. replace j'' with (j1 s) by lia. reflexivity.
+Qed.
+
+Lemma phase1_inv : forall a b, strict_incr a = true -> strict_incr b = true ->
+  forall fuel s, Inv a b s -> (length a - i1 s + (length b - j1 s) <= fuel)%nat ->
+  Inv a b (phase1 fuel a b s) /\
+  ~ ((i1 (phase1 fuel a b s) < length a)%nat /\ (j1 (phase1 fuel a b s) < length b)%nat).
+Proof.
+  intros a b Ha Hb. induction fuel as [|f IH]; intros s I Hm.
+  - cbn [phase1]. split; [exact I|]. lia.
+  - rewrite phase1_unfold.
+    destruct (Nat.ltb_spec (i1 s) (length a)) as [Hi|Hi]; cbn [andb].
+    + destruct (Nat.ltb_spec (j1 s) (length b)) as [Hj|Hj].
+      * destruct (inv_step a b s Ha Hb I Hi Hj) as [I' [Hi' [Hj' Hs]]].
+        apply IH; [exact I'|].
+        pose proof (inv_i _ _ _ I'). pose proof (inv_j _ _ _ I'). lia.
+      * split; [exact I|lia].
+    + split; [exact I|lia].
+Qed.
+
+(* ---------- the shape of (c, d) after phase 1 and the tail ---------- *)
+Record Shape (a b c : list Z) (d : list slice) (k : nat) : Prop := {
+  sh_klen : length d = k;
+  sh_kpos : (1 <= k)%nat;
+  sh_clen : length c = S (S k);
+  sh_cmono : forall t, (t < k)%nat -> nthZ c t < nthZ c (S t);
+  sh_ck : nthZ c k = lastZ a;
+  sh_ck1 : nthZ c (S k) = lastZ a;
+  sh_sl : forall t, (t < k)%nat -> slice_ok a c t (nth t d dslice);
+  sh_ina : forall i, (i < length a)%nat -> exists t, (t <= k)%nat /\ nthZ c t = nthZ a i;
+  sh_inb : forall j, (j < length b)%nat -> exists t, (t <= k)%nat /\ nthZ c t = nthZ b j }.
+
+Section Gen.
+  Variables a b : list Z.
+  Hypothesis Ha : strict_incr a = true.
+  Hypothesis Hb : strict_incr b = true.
+  Hypothesis Hla : (2 <= length a)%nat.
+  Hypothesis Hlb : (2 <= length b)%nat.
+  Hypothesis H0 : nthZ a 0 = nthZ b 0.
+  Hypothesis HL : lastZ a = lastZ b.
+
+  Let n := (length a - 1)%nat.
+  Let m := (length b - 1)%nat.
+  Let L := lastZ a.
+
+  Lemma La : L = nthZ a n. Proof. apply lastZ_nth. Qed.
+  Lemma Lb : L = nthZ b m. Proof. unfold L. rewrite HL. apply lastZ_nth. Qed.
+
+  Definition s0 : st1 :=
+    let low0 := Z.min (nthZ a 0) (nthZ b 0) in {| i1 := 1; j1 := 1; low1 := low0; c1 := [low0]; d1 := [] |}.
+  Definition sF : st1 := phase1 (length a + length b) a b s0.
+
+  Lemma inv_s0 : Inv a b s0.
+  Proof.
+    unfold s0. rewrite <- H0, Z.min_id.
+    constructor; cbn [i1 j1 low1 c1 d1 length]; try lia; try reflexivity.
+    - rewrite H0. cbn. lia.
+    - left. reflexivity.
+    - intros _. apply strict_adj; [exact Ha|lia].
+    - intros _. rewrite H0. apply strict_adj; [exact Hb|lia].
+    - intros i' Hi'. exists 0%nat. split; [lia|]. replace i' with 0%nat by lia. reflexivity.
+    - intros j' Hj'. exists 0%nat. split; [lia|]. replace j' with 0%nat by lia. cbn. exact H0.
+  Qed.
+
+  Lemma sF_facts :
+    Inv a b sF /\ i1 sF = length a /\ j1 sF = length b /\ low1 sF = L.
+  Proof.
+    destruct (phase1_inv a b Ha Hb (length a + length b) s0 inv_s0) as [I Hstop].
+    { cbn [s0 i1 j1]. lia. }
+    fold sF in I, Hstop. split; [exact I|].
+    pose proof (inv_i _ _ _ I) as Ii. pose proof (inv_j _ _ _ I) as Ij.
+    pose proof (inv_lowa _ _ _ I) as Ilowa. pose proof (inv_lowb _ _ _ I) as Ilowb.
+    pose proof (inv_nexta _ _ _ I) as Ina. pose proof (inv_nextb _ _ _ I) as Inb.
+    pose proof (mono_le (nthZ a) n (strict_adj' a Ha)) as Ma.
+    pose proof (mono_le (nthZ b) m (strict_adj' b Hb)) as Mb.
+    pose proof La as ELa. pose proof Lb as ELb.
+    assert (Hij : i1 sF = length a /\ j1 sF = length b).
+    { destruct (le_lt_dec (length a) (i1 sF)) as [Hi|Hi].
+      - split; [lia|]. destruct (le_lt_dec (length b) (j1 sF)) as [Hj|Hj]; [lia|].
+        specialize (Inb Hj). specialize (Mb (j1 sF) m ltac:(unfold m; lia) ltac:(lia)).
+        replace (i1 sF - 1)%nat with n in Ilowa by (unfold n; lia). lia.
+      - destruct (le_lt_dec (length b) (j1 sF)) as [Hj|Hj]; [|exfalso; apply Hstop; split; assumption].
+        specialize (Ina Hi). specialize (Ma (i1 sF) n ltac:(unfold n; lia) ltac:(lia)).
+        replace (j1 sF - 1)%nat with m in Ilowb by (unfold m; lia). lia. }
+    destruct Hij as [Ei Ej]. split; [exact Ei|]. split; [exact Ej|].
+    destruct (inv_lowab _ _ _ I) as [E|E]; rewrite E.
+    - rewrite Ei. symmetry. exact ELa.
+    - rewrite Ej. symmetry. exact ELb.
+  Qed.
+
+  Definition cF : list Z := c1 sF ++ [L].
+  Definition dF : list slice := d1 sF.
+  Definition kF : nat := length dF.
+
+  Lemma shapeF : Shape a b cF dF kF.
+  Proof.
+    destruct sF_facts as [I [Ei [Ej El]]].
+    pose proof (inv_len _ _ _ I) as Ilen. fold dF in Ilen. fold kF in Ilen.
+    pose proof (inv_low _ _ _ I) as Ilow. fold dF in Ilow. fold kF in Ilow. rewrite El in Ilow.
+    assert (Hk : (1 <= kF)%nat).
+    { destruct (inv_ina _ _ _ I 0%nat ltac:(lia)) as [t0 [Ht0 E0]].
+      destruct (inv_ina _ _ _ I n ltac:(unfold n; lia)) as [t1 [Ht1 E1]].
+      fold dF in Ht0, Ht1. fold kF in Ht0, Ht1.
+      pose proof (mono_lt (nthZ a) n (strict_adj' a Ha) n 0%nat ltac:(unfold n; lia) ltac:(lia)).
+      destruct (Nat.eq_dec kF 0) as [E|NE]; [|lia].
+      replace t0 with 0%nat in E0 by lia. replace t1 with 0%nat in E1 by lia. lia. }
+    constructor.
+    - reflexivity.
+    - exact Hk.
+    - unfold cF. rewrite app_length. cbn [length]. lia.
+    - intros t Ht. unfold cF. rewrite !nthZ_app1 by lia. apply (inv_cmono _ _ _ I). exact Ht.
+    - unfold cF. rewrite nthZ_app1 by lia. symmetry. exact Ilow.
+    - unfold cF. rewrite <- Ilen. apply nthZ_snoc.
+    - intros t Ht. pose proof (inv_sl _ _ _ I t Ht) as Sl. unfold slice_ok in *. unfold cF.
+      rewrite !nthZ_app1 by lia. exact Sl.
+    - intros i Hi. destruct (inv_ina _ _ _ I i ltac:(lia)) as [t [Ht E]]. exists t.
+      split; [exact Ht|]. unfold cF. rewrite nthZ_app1 by (fold dF in Ht; fold kF in Ht; lia). exact E.
+    - intros j Hj. destruct (inv_inb _ _ _ I j ltac:(lia)) as [t [Ht E]]. exists t.
+      split; [exact Ht|]. unfold cF. rewrite nthZ_app1 by (fold dF in Ht; fold kF in Ht; lia). exact E.
+  Qed.
+
+  Lemma repart_plan_unfold :
+    repart_plan a b false =
+    match phase2 cF b true kF (seq 1 (length b - 1)) 0 [] with
+    | None => None
+    | Some outs => Some {| p_slices := close_last dF; p_outs := outs |}
+    end.
+  Proof.
+    pose proof shapeF as Sh.
+    unfold repart_plan.
+    assert (Hv : repart_validate a b false = true).
+    { unfold repart_validate. rewrite H0, HL, !Z.eqb_refl.
+      destruct (Nat.leb_spec 2 (length b)); [reflexivity|lia]. }
+    rewrite Hv. cbn [negb]. fold s0. fold sF.
+    assert (C1 : ((lastZ a <? lastZ b) || (lastZ b =? nthZ b (length b - 2)))%bool = false).
+    { rewrite <- HL. rewrite Z.ltb_irrefl. cbn [orb]. apply Z.eqb_neq.
+      fold L. rewrite Lb.
+      pose proof (strict_adj b (length b - 2) Hb ltac:(lia)) as Hlt.
+      replace (S (length b - 2))%nat with m in Hlt by (unfold m; lia). lia. }
+    rewrite C1.
+    assert (C2 : single_last a = false).
+    { unfold single_last. apply andb_false_iff. right. apply Z.eqb_neq.
+      pose proof (strict_adj a (length a - 2) Ha ltac:(lia)) as Hlt.
+      replace (S (length a - 2))%nat with (length a - 1)%nat in Hlt by lia. lia. }
+    rewrite C2. cbn [andb]. fold L. fold cF. fold dF. fold kF.
+    assert (C3 : single_last cF = true).
+    { unfold single_last. rewrite (sh_clen _ _ _ _ _ Sh).
+      replace (S (S kF) - 1)%nat with (S kF) by lia. replace (S (S kF) - 2)%nat with kF by lia.
+      rewrite (sh_ck _ _ _ _ _ Sh), (sh_ck1 _ _ _ _ _ Sh), Z.eqb_refl. reflexivity. }
+    rewrite C3.
+    pose proof (sh_kpos _ _ _ _ _ Sh) as Hk.
+    destruct kF as [|k'] eqn:Ek; [lia|]. reflexivity.
+  Qed.
+End Gen.
+
+(* ---------- phase 2 ---------- *)
+Lemma nth_error_nthZ : forall c i, (i < length c)%nat -> nth_error c i = Some (nthZ c i).
+Proof. intros c i H. unfold nthZ. apply nth_error_nth'. exact H. Qed.
+
+Lemma collect_lt_spec : forall fuel c bj i q tmp,
+  (forall t, (i <= t < q)%nat -> nthZ c t < bj) -> (q < length c)%nat -> ~ (nthZ c q < bj) ->
+  (i <= q)%nat -> (q - i < fuel)%nat ->
+  collect_lt fuel c bj i tmp = Some (q, tmp ++ seq i (q - i)).
+Proof.
+  induction fuel as [|f IH]; intros c bj i q tmp Hlt Hq Hnq Hiq Hf; [lia|].
+  cbn [collect_lt]. rewrite (nth_error_nthZ c i) by lia.
+  destruct (Nat.eq_dec i q) as [->|Hne].
+  - destruct (Z.ltb_spec (nthZ c q) bj) as [Hc|Hc]; [contradiction|].
+    rewrite Nat.sub_diag. cbn [seq]. rewrite app_nil_r. reflexivity.
+  - destruct (Z.ltb_spec (nthZ c i) bj) as [Hc|Hc].
+    + rewrite (IH c bj (S i) q (tmp ++ [i])); try assumption; try lia.
+      * replace (q - i)%nat with (S (q - S i)) by lia. cbn [seq]. rewrite <- app_assoc. reflexivity.
+      * intros t Ht. apply Hlt. lia.
+    + specialize (Hlt i ltac:(lia)). lia.
+Qed.
+
+Lemma ks_of_match : forall tmp : list nat,
+  ks_of (match tmp with [] => ODummy | [x] => OAlias x | _ => OConcat tmp end) = tmp.
+Proof. intros [|x [|y r]]; reflexivity. Qed.
+
+Section Phase2.
+  Variables a b c : list Z.
+  Variable d : list slice.
+  Variable k : nat.
+  Hypothesis Hb : strict_incr b = true.
+  Hypothesis Hlb : (2 <= length b)%nat.
+  Hypothesis HL : lastZ a = lastZ b.
+  Hypothesis Sh : Shape a b c d k.
+
+  Let m := (length b - 1)%nat.
+
+  Lemma c_lt : forall t t', (t < t')%nat -> (t' <= k)%nat -> nthZ c t < nthZ c t'.
+  Proof. intros t t'. apply (mono_lt (nthZ c) k (sh_cmono _ _ _ _ _ Sh) t' t). Qed.
+  Lemma c_inv_lt : forall t t', (t <= k)%nat -> (t' <= k)%nat -> nthZ c t < nthZ c t' -> (t < t')%nat.
+  Proof. apply mono_inv_lt. apply (sh_cmono _ _ _ _ _ Sh). Qed.
+  Lemma c_inv_le : forall t t', (t <= k)%nat -> (t' <= k)%nat -> nthZ c t <= nthZ c t' -> (t <= t')%nat.
+  Proof. apply mono_inv_le. apply (sh_cmono _ _ _ _ _ Sh). Qed.
+  Lemma c_inj : forall t t', (t <= k)%nat -> (t' <= k)%nat -> nthZ c t = nthZ c t' -> t = t'.
+  Proof. apply mono_inj. apply (sh_cmono _ _ _ _ _ Sh). Qed.
+  Lemma b_lt : forall j j', (j < j')%nat -> (j' <= m)%nat -> nthZ b j < nthZ b j'.
+  Proof. intros j j'. apply (mono_lt (nthZ b) m (strict_adj' b Hb) j' j). Qed.
+
+  Lemma collect_last_stop : forall q j tmp, (q <= k)%nat -> (1 <= j <= m)%nat -> nthZ c q = nthZ b j ->
+    collect_last (S (length c)) c b true (j =? length b - 1)%nat k q tmp = Some (q, tmp).
+  Proof.
+    intros q j tmp Hq Hj E. cbn [collect_last].
+    rewrite (nth_error_nthZ c q) by (rewrite (sh_clen _ _ _ _ _ Sh); lia).
+    assert (C : ((nthZ c q =? lastZ b) && (negb (lastZ b =? nthZ b (length b - 2)) || (j =? length b - 1)%nat)
+                 && (q <? k)%nat)%bool = false).
+    { destruct (Z.eqb_spec (nthZ c q) (lastZ b)) as [E1|NE]; [|reflexivity].
+      cbn [andb]. apply andb_false_iff. right. apply Nat.ltb_ge.
+      rewrite <- HL, <- (sh_ck _ _ _ _ _ Sh) in E1.
+      rewrite (c_inj q k Hq ltac:(lia) E1). lia. }
+    rewrite C. reflexivity.
+  Qed.
+
+  Lemma phase2_spec : forall r j0 p outs,
+    (1 <= j0)%nat -> (j0 + r = S m)%nat -> (p <= k)%nat -> nthZ c p = nthZ b (j0 - 1) ->
+    exists outs', phase2 c b true k (seq j0 r) p outs = Some (outs ++ outs') /\ length outs' = r /\
+      forall u, (u < r)%nat -> exists p' q', (p' <= q')%nat /\ (q' <= k)%nat /\
+        nthZ c p' = nthZ b (j0 - 1 + u) /\ nthZ c q' = nthZ b (j0 + u) /\
+        ks_of (nth u outs' ODummy) = seq p' (q' - p').
+  Proof.
+    induction r as [|r IH]; intros j0 p outs Hj0 Hr Hp Ep.
+    - exists []. cbn [seq phase2]. rewrite app_nil_r. split; [reflexivity|]. split; [reflexivity|]. intros u Hu. lia.
+    - cbn [seq phase2].
+      destruct (sh_inb _ _ _ _ _ Sh j0 ltac:(unfold m in Hr; lia)) as [q [Hq Eq]].
+      assert (Hbb : nthZ b (j0 - 1) < nthZ b j0) by (apply b_lt; lia).
+      assert (Hpq : (p < q)%nat) by (apply c_inv_lt; try assumption; lia).
+      rewrite (collect_lt_spec (S (length c)) c (nthZ b j0) p q []).
+      + cbn [app]. rewrite (collect_last_stop q j0 _ Hq ltac:(lia) Eq).
+        destruct (IH (S j0) q (outs ++ [match seq p (q - p) with [] => ODummy | [x] => OAlias x | _ => OConcat (seq p (q - p)) end]))
+          as [outs' [E [Hlen Hall]]]; try lia.
+        { replace (S j0 - 1)%nat with j0 by lia. exact Eq. }
+        eexists (_ :: outs'). split; [rewrite E, <- app_assoc; reflexivity|].
+        split; [cbn [length]; lia|].
+        intros u Hu. destruct u as [|u].
+        * exists p, q. cbn [nth]. rewrite ks_of_match.
+          replace (j0 - 1 + 0)%nat with (j0 - 1)%nat by lia. replace (j0 + 0)%nat with j0 by lia.
+          repeat split; try assumption; lia.
+        * destruct (Hall u ltac:(lia)) as [p' [q' [A1 [A2 [A3 [A4 A5]]]]]].
+          exists p', q'. cbn [nth].
+          replace (j0 - 1 + S u)%nat with (S j0 - 1 + u)%nat by lia.
+          replace (j0 + S u)%nat with (S j0 + u)%nat by lia.
+          repeat split; assumption.
+      + intros t Ht. rewrite <- Eq. apply c_lt; lia.
+      + rewrite (sh_clen _ _ _ _ _ Sh). lia.
+      + lia.
+      + lia.
+      + rewrite (sh_clen _ _ _ _ _ Sh). lia.
+  Qed.
+End Phase2.
+
+(* ---------- generic list lemmas for the checker side ---------- *)
+Ltac nzb :=
+  repeat match goal with
+  | |- context [(?x =? ?y)%nat] => destruct (Nat.eqb_spec x y)
+  | |- context [(?x <=? ?y)%nat] => destruct (Nat.leb_spec x y)
+  | |- context [(?x <? ?y)%nat] => destruct (Nat.ltb_spec x y)
+  | |- context [?x <=? ?y] => destruct (Z.leb_spec x y)
+  | |- context [?x <? ?y] => destruct (Z.ltb_spec x y)
+  | |- context [?x =? ?y] => destruct (Z.eqb_spec x y)
+  end.
+
+Ltac nzb1 :=
+  match goal with
+  | |- context [(?x =? ?y)%nat] => destruct (Nat.eqb_spec x y)
+  | |- context [(?x <=? ?y)%nat] => destruct (Nat.leb_spec x y)
+  | |- context [(?x <? ?y)%nat] => destruct (Nat.ltb_spec x y)
+  | |- context [?x <=? ?y] => destruct (Z.leb_spec x y)
+  | |- context [?x <? ?y] => destruct (Z.ltb_spec x y)
+  | |- context [?x =? ?y] => destruct (Z.eqb_spec x y)
+  | H : context [?x <=? ?y] |- _ => destruct (Z.leb_spec x y)
+  | H : context [?x <? ?y] |- _ => destruct (Z.ltb_spec x y)
+  | H : context [?x =? ?y] |- _ => destruct (Z.eqb_spec x y)
+  end.
+
+Lemma filter_true : forall A (f : A -> bool) l, (forall x, In x l -> f x = true) -> filter f l = l.
+Proof.
+  induction l as [|x l IH]; intros H; [reflexivity|].
+  cbn [filter]. rewrite (H x (or_introl eq_refl)). f_equal. apply IH. intros y Hy. apply H. right. exact Hy.
+Qed.
+
+Lemma filter_seq_range : forall t0 len p q, (t0 <= p)%nat -> (p <= q)%nat -> (q <= t0 + len)%nat ->
+  filter (fun t => (p <=? t)%nat && (t <? q)%nat) (seq t0 len) = seq p (q - p).
+Proof.
+  intros t0 len p q H1 H2 H3.
+  replace len with ((p - t0) + ((q - p) + (t0 + len - q)))%nat by lia.
+  rewrite !seq_app. replace (t0 + (p - t0))%nat with p by lia. replace (p + (q - p))%nat with q by lia.
+  rewrite !filter_app.
+  rewrite (filter_false _ _ (seq t0 (p - t0))).
+  2:{ intros t Ht. apply in_seq in Ht. nzb; cbn; try reflexivity; lia. }
+  rewrite (filter_false _ _ (seq q (t0 + len - q))).
+  2:{ intros t Ht. apply in_seq in Ht. nzb; cbn; try reflexivity; lia. }
+  rewrite (filter_true _ _ (seq p (q - p))).
+  2:{ intros t Ht. apply in_seq in Ht. nzb; cbn; try reflexivity; lia. }
+  cbn [app]. apply app_nil_r.
+Qed.
+
+Lemma sortedZ_seq : forall (g : nat -> Z) len p,
+  (forall t, (p <= t)%nat -> (S t < p + len)%nat -> g t <= g (S t)) -> sortedZ (map g (seq p len)).
+Proof.
+  induction len as [|len IH]; intros p H; [exact I|].
+  cbn [seq map]. split.
+  - destruct len as [|len']; [exact I|]. cbn [seq map]. apply H; lia.
+  - apply IH. intros t Ht1 Ht2. apply H; lia.
+Qed.
+
+Lemma concat_groups : forall (key : nat -> nat) ks,
+  sortedZ (map (fun t => Z.of_nat (key t)) ks) ->
+  forall n lo, concat (map (fun i => filter (fun t => (key t =? i)%nat) ks) (seq lo n))
+               = filter (fun t => (lo <=? key t)%nat && (key t <? lo + n)%nat) ks.
+Proof.
+  intros key ks Hs. induction n as [|n IH]; intros lo.
+  - cbn [seq map concat]. symmetry. apply filter_false. intros t _. nzb; cbn; try reflexivity; lia.
+  - cbn [seq map concat]. rewrite IH.
+    transitivity (filter (fun t => (fun z => z =? Z.of_nat lo) (Z.of_nat (key t))) ks ++
+                  filter (fun t => (fun z => (Z.of_nat (S lo) <=? z) && (z <? Z.of_nat (S lo + n))) (Z.of_nat (key t))) ks).
+    { f_equal; apply filter_ext; intros t; cbv beta; nzb; cbn; try reflexivity; lia. }
+    rewrite (filter_app_sorted nat (fun t => Z.of_nat (key t))
+               (fun z => z =? Z.of_nat lo)
+               (fun z => (Z.of_nat (S lo) <=? z) && (z <? Z.of_nat (S lo + n)))
+               (fun z => (Z.of_nat lo <=? z) && (z <? Z.of_nat (lo + S n)))).
+    + apply filter_ext. intros t. cbv beta. nzb; cbn; try reflexivity; lia.
+    + intros x y Hx Hy. cbv beta in Hx, Hy. apply Z.eqb_eq in Hx. apply andb_true_iff in Hy.
+      destruct Hy as [Hy _]. apply Z.leb_le in Hy. lia.
+    + intros x. nzb; cbn; try reflexivity; lia.
+    + exact Hs.
+Qed.
+
+Lemma eqb_nats_refl : forall l, eqb_nats l l = true.
+Proof. induction l as [|x l IH]; [reflexivity|]. cbn [eqb_nats]. rewrite Nat.eqb_refl, IH. reflexivity. Qed.
+
+Lemma close_last_snoc : forall d0 x,
+  close_last (d0 ++ [x]) = d0 ++ [{| s_src := s_src x; s_lo := s_lo x; s_hi := s_hi x; s_closed := true |}].
+Proof. intros. unfold close_last. rewrite rev_unit, rev_involutive. reflexivity. Qed.
+
+Lemma getS_close_last : forall d t, (t < length d)%nat ->
+  getS (close_last d) t =
+  {| s_src := s_src (nth t d dslice); s_lo := s_lo (nth t d dslice); s_hi := s_hi (nth t d dslice);
+     s_closed := if (S t =? length d)%nat then true else s_closed (nth t d dslice) |}.
+Proof.
+  intros d t Ht. destruct (exists_last (l := d)) as [d0 [x E]]; [intros ->; cbn in Ht; lia|].
+  subst d. rewrite close_last_snoc. unfold getS. rewrite app_length in *. cbn [length] in *.
+  destruct (Nat.eq_dec t (length d0)) as [->|Hne].
+  - rewrite !app_nth2 by lia. rewrite Nat.sub_diag. cbn [nth].
+    destruct (Nat.eqb_spec (S (length d0)) (length d0 + 1)); [reflexivity|lia].
+  - rewrite !app_nth1 by lia.
+    destruct (Nat.eqb_spec (S t) (length d0 + 1)); [lia|].
+    destruct (nth t d0 dslice); reflexivity.
+Qed.
+
+(* ---------- interval arithmetic needed for the checker ---------- *)
+Lemma ieq_arith : forall ai ai1 bj bj1 L,
+  ai < ai1 -> ai1 <= L -> bj < bj1 -> bj1 <= L -> Z.max ai bj < Z.min ai1 bj1 ->
+  ieq (inter (Z.max ai bj, (Z.min ai1 bj1, Z.min ai1 bj1 =? L)) (ai, (ai1, ai1 =? L)))
+      (inter (bj, (bj1, bj1 =? L)) (ai, (ai1, ai1 =? L))) = true.
+Proof.
+  intros ai ai1 bj bj1 L H1 H2 H3 H4 H5.
+  unfold ieq, inter, ub_min, ub_le, iempty. cbn [fst snd].
+  destruct (Z.max_spec ai bj) as [[? Hm]|[? Hm]]; rewrite ?Hm in *;
+  destruct (Z.min_spec ai1 bj1) as [[? Hn]|[? Hn]]; rewrite ?Hn in *;
+  repeat match goal with
+  | |- context [Z.max ?x ?y] => first [rewrite (Z.max_l x y) by lia | rewrite (Z.max_r x y) by lia]
+  end;
+  repeat (nzb1; cbn [andb orb negb implb fst snd Bool.eqb] in *); try reflexivity; try lia.
+Qed.
+
+Lemma ieq_arith_empty : forall ai ai1 bj bj1 L,
+  ai < ai1 -> ai1 <= L -> bj < bj1 -> bj1 <= L -> Z.min ai1 bj1 <= Z.max ai bj ->
+  ieq (inter empty_ivl (ai, (ai1, ai1 =? L))) (inter (bj, (bj1, bj1 =? L)) (ai, (ai1, ai1 =? L))) = true.
+Proof.
+  intros ai ai1 bj bj1 L H1 H2 H3 H4 H5.
+  unfold ieq, inter, ub_min, ub_le, iempty, empty_ivl. cbn [fst snd].
+  destruct (Z.max_spec ai bj) as [[? Hm]|[? Hm]]; rewrite ?Hm in *;
+  destruct (Z.min_spec ai1 bj1) as [[? Hn]|[? Hn]]; rewrite ?Hn in *;
+  destruct (Z.max_spec 0 ai) as [[? Hp]|[? Hp]]; rewrite ?Hp in *;
+  repeat match goal with
+  | |- context [Z.max ?x ?y] => first [rewrite (Z.max_l x y) by lia | rewrite (Z.max_r x y) by lia]
+  end;
+  repeat (nzb1; cbn [andb orb negb implb fst snd Bool.eqb] in *); try reflexivity; try lia.
+Qed.
+
+(* ---------- the generated plan passes the checker ---------- *)
+Section Check.
+  Variables a b c : list Z.
+  Variable d : list slice.
+  Variable k : nat.
+  Hypothesis Ha : strict_incr a = true.
+  Hypothesis Hb : strict_incr b = true.
+  Hypothesis Hla : (2 <= length a)%nat.
+  Hypothesis Hlb : (2 <= length b)%nat.
+  Hypothesis HL : lastZ a = lastZ b.
+  Hypothesis Sh : Shape a b c d k.
+
+  Let n := (length a - 1)%nat.
+  Let m := (length b - 1)%nat.
+  Let L := lastZ a.
+  Let sl := close_last d.
+  Let sg (t : nat) : nat := s_src (nth t d dslice).
+
+  Lemma La' : L = nthZ a n. Proof. apply lastZ_nth. Qed.
+  Lemma Lb' : L = nthZ b m. Proof. unfold L. rewrite HL. apply lastZ_nth. Qed.
+
+  Lemma a_lt : forall i i', (i < i')%nat -> (i' <= n)%nat -> nthZ a i < nthZ a i'.
+  Proof. intros i i'. apply (mono_lt (nthZ a) n (strict_adj' a Ha) i' i). Qed.
+  Lemma a_le : forall i i', (i <= i')%nat -> (i' <= n)%nat -> nthZ a i <= nthZ a i'.
+  Proof. apply (mono_le (nthZ a) n (strict_adj' a Ha)). Qed.
+  Lemma a_inv_lt : forall i i', (i <= n)%nat -> (i' <= n)%nat -> nthZ a i < nthZ a i' -> (i < i')%nat.
+  Proof. apply (mono_inv_lt (nthZ a) n (strict_adj' a Ha)). Qed.
+  Lemma b_lt' : forall j j', (j < j')%nat -> (j' <= m)%nat -> nthZ b j < nthZ b j'.
+  Proof. intros j j'. apply (mono_lt (nthZ b) m (strict_adj' b Hb) j' j). Qed.
+  Lemma b_le' : forall j j', (j <= j')%nat -> (j' <= m)%nat -> nthZ b j <= nthZ b j'.
+  Proof. apply (mono_le (nthZ b) m (strict_adj' b Hb)). Qed.
+  Lemma c_le : forall t t', (t <= t')%nat -> (t' <= k)%nat -> nthZ c t <= nthZ c t'.
+  Proof. apply (mono_le (nthZ c) k (sh_cmono _ _ _ _ _ Sh)). Qed.
+
+  Lemma getS_sl : forall t, (t < k)%nat ->
+    getS sl t = {| s_src := sg t; s_lo := nthZ c t; s_hi := nthZ c (S t); s_closed := (S t =? k)%nat |}.
+  Proof.
+    intros t Ht. unfold sl. rewrite getS_close_last by (rewrite (sh_klen _ _ _ _ _ Sh); exact Ht).
+    rewrite (sh_klen _ _ _ _ _ Sh).
+    destruct (sh_sl _ _ _ _ _ Sh t Ht) as [E1 [E2 [E3 _]]]. unfold sg.
+    rewrite E1, E2, E3. destruct (S t =? k)%nat; reflexivity.
+  Qed.
+
+  Lemma sg_facts : forall t, (t < k)%nat ->
+    (S (sg t) <= n)%nat /\ nthZ a (sg t) <= nthZ c t /\ nthZ c (S t) <= nthZ a (S (sg t)).
+  Proof.
+    intros t Ht. destruct (sh_sl _ _ _ _ _ Sh t Ht) as [_ [_ [_ [E4 [E5 E6]]]]]. unfold sg, n.
+    repeat split; try assumption. lia.
+  Qed.
+
+  Lemma src_getS : forall t, (t < k)%nat -> s_src (getS sl t) = sg t.
+  Proof. intros t Ht. rewrite getS_sl by exact Ht. reflexivity. Qed.
+
+  Lemma sg_char : forall t i, (t < k)%nat -> (i < n)%nat ->
+    (sg t = i <-> nthZ a i <= nthZ c t /\ nthZ c t < nthZ a (S i)).
+  Proof.
+    intros t i Ht Hi. destruct (sg_facts t Ht) as [F1 [F2 F3]].
+    pose proof (sh_cmono _ _ _ _ _ Sh t Ht) as Hc. split.
+    - intros <-. lia.
+    - intros [G1 G2].
+      assert (i < S (sg t))%nat by (apply a_inv_lt; lia).
+      assert (sg t < S i)%nat by (apply a_inv_lt; lia). lia.
+  Qed.
+
+  Lemma sg_adj : forall t, (S t < k)%nat -> (sg t <= sg (S t))%nat.
+  Proof.
+    intros t Ht. destruct (sg_facts t ltac:(lia)) as [F1 [F2 F3]].
+    destruct (sg_facts (S t) Ht) as [G1 [G2 G3]].
+    pose proof (sh_cmono _ _ _ _ _ Sh t ltac:(lia)). pose proof (sh_cmono _ _ _ _ _ Sh (S t) Ht).
+    assert (sg t < S (sg (S t)))%nat by (apply a_inv_lt; lia). lia.
+  Qed.
+
+  (* closedness flags as comparisons with L *)
+  Lemma flag_c : forall t, (t <= k)%nat -> (t =? k)%nat = (nthZ c t =? L).
+  Proof.
+    intros t Ht. pose proof (sh_ck _ _ _ _ _ Sh) as Ek. fold L in Ek.
+    destruct (Nat.eqb_spec t k) as [E0|NE]; destruct (Z.eqb_spec (nthZ c t) L) as [E|NE']; try reflexivity.
+    - exfalso. apply NE'. rewrite E0. exact Ek.
+    - exfalso. apply NE. apply (mono_inj (nthZ c) k (sh_cmono _ _ _ _ _ Sh)); lia.
+  Qed.
+  Lemma flag_a : forall i, (S i <= n)%nat -> (S (S i) =? length a)%nat = (nthZ a (S i) =? L).
+  Proof.
+    intros i Hi. rewrite La'.
+    destruct (Nat.eqb_spec (S (S i)) (length a)) as [E|NE]; destruct (Z.eqb_spec (nthZ a (S i)) (nthZ a n)) as [E'|NE'];
+      try reflexivity.
+    - exfalso. apply NE'. f_equal. unfold n. lia.
+    - exfalso. apply NE. pose proof (mono_inj (nthZ a) n (strict_adj' a Ha) (S i) n Hi ltac:(lia) E'). unfold n in *. lia.
+  Qed.
+  Lemma flag_b : forall j, (S j <= m)%nat -> (S (S j) =? length b)%nat = (nthZ b (S j) =? L).
+  Proof.
+    intros j Hj. rewrite Lb'.
+    destruct (Nat.eqb_spec (S (S j)) (length b)) as [E|NE]; destruct (Z.eqb_spec (nthZ b (S j)) (nthZ b m)) as [E'|NE'];
+      try reflexivity.
+    - exfalso. apply NE'. f_equal. unfold m. lia.
+    - exfalso. apply NE. pose proof (mono_inj (nthZ b) m (strict_adj' b Hb) (S j) m Hj ltac:(lia) E'). unfold m in *. lia.
+  Qed.
+
+  Lemma chain_seq : forall len p, (p + len <= k)%nat ->
+    chain_ok (map (getS sl) (seq p len)) = true /\
+    ((1 <= len)%nat -> hull (map (getS sl) (seq p len)) = (nthZ c p, (nthZ c (p + len), (p + len =? k)%nat))).
+  Proof.
+    induction len as [|len IH]; intros p Hp.
+    - split; [reflexivity|lia].
+    - destruct len as [|len'].
+      + cbn [seq map]. rewrite getS_sl by lia. cbn [chain_ok hull ivl_of s_lo s_hi s_closed].
+        pose proof (sh_cmono _ _ _ _ _ Sh p ltac:(lia)).
+        split.
+        * rewrite andb_true_r. apply Z.leb_le. lia.
+        * intros _. replace (p + 1)%nat with (S p) by lia. reflexivity.
+      + destruct (IH (S p) ltac:(lia)) as [C H]. specialize (H ltac:(lia)).
+        change (seq p (S (S len'))) with (p :: seq (S p) (S len')).
+        change (map (getS sl) (p :: seq (S p) (S len'))) with (getS sl p :: map (getS sl) (seq (S p) (S len'))).
+        remember (map (getS sl) (seq (S p) (S len'))) as r eqn:Er.
+        assert (Er' : exists r', r = getS sl (S p) :: r').
+        { rewrite Er. cbn [seq map]. eexists. reflexivity. }
+        destruct Er' as [r' Er']. rewrite Er' in *.
+        change (chain_ok (getS sl p :: getS sl (S p) :: r')) with
+          ((s_lo (getS sl p) <=? s_hi (getS sl p)) &&
+           (negb (s_closed (getS sl p)) && (s_hi (getS sl p) =? s_lo (getS sl (S p))) && chain_ok (getS sl (S p) :: r'))).
+        change (hull (getS sl p :: getS sl (S p) :: r')) with (s_lo (getS sl p), snd (hull (getS sl (S p) :: r'))).
+        rewrite C, H. rewrite (getS_sl p) by lia. rewrite (getS_sl (S p)) by lia.
+        cbn [s_lo s_hi s_closed snd].
+        pose proof (sh_cmono _ _ _ _ _ Sh p ltac:(lia)).
+        split.
+        * rewrite Z.eqb_refl. destruct (Nat.eqb_spec (S p) k); [lia|].
+          cbn [negb andb]. rewrite andb_true_r. apply Z.leb_le. lia.
+        * intros _. replace (S p + S len')%nat with (p + S (S len'))%nat by lia. reflexivity.
+  Qed.
+
+  Section OneOut.
+    Variables j p q : nat.
+    Hypothesis Hj : (j < m)%nat.
+    Hypothesis Hpq : (p <= q)%nat.
+    Hypothesis Hq : (q <= k)%nat.
+    Hypothesis Ep : nthZ c p = nthZ b j.
+    Hypothesis Eq : nthZ c q = nthZ b (S j).
+
+    Lemma range_facts : forall t, (p <= t < q)%nat -> nthZ b j <= nthZ c t /\ nthZ c t < nthZ b (S j).
+    Proof.
+      intros t Ht. rewrite <- Ep, <- Eq. split; [apply c_le; lia|].
+      apply (mono_lt (nthZ c) k (sh_cmono _ _ _ _ _ Sh)); lia.
+    Qed.
+
+    Lemma check_src_ok : forall i, (i < n)%nat -> check_src a b sl j (seq p (q - p)) i = true.
+    Proof.
+      intros i Hi. unfold check_src, group.
+      pose proof (a_lt i (S i) ltac:(lia) ltac:(lia)) as Hai.
+      pose proof (b_lt' j (S j) ltac:(lia) ltac:(lia)) as Hbj.
+      pose proof (a_le (S i) n ltac:(lia) ltac:(lia)) as HaL. rewrite <- La' in HaL.
+      pose proof (b_le' (S j) m ltac:(lia) ltac:(lia)) as HbL. rewrite <- Lb' in HbL.
+      unfold tgt. rewrite (flag_a i) by lia. rewrite (flag_b j) by lia.
+      destruct (Z_lt_le_dec (Z.max (nthZ a i) (nthZ b j)) (Z.min (nthZ a (S i)) (nthZ b (S j)))) as [Hxy|Hyx].
+      - (* non-empty overlap *)
+        assert (Hpx : exists px, (px <= k)%nat /\ nthZ c px = Z.max (nthZ a i) (nthZ b j)).
+        { destruct (Z.max_spec (nthZ a i) (nthZ b j)) as [[_ ->]|[_ ->]].
+          - apply (sh_inb _ _ _ _ _ Sh). unfold m in Hj. lia.
+          - apply (sh_ina _ _ _ _ _ Sh). unfold n in Hi. lia. }
+        assert (Hqy : exists qy, (qy <= k)%nat /\ nthZ c qy = Z.min (nthZ a (S i)) (nthZ b (S j))).
+        { destruct (Z.min_spec (nthZ a (S i)) (nthZ b (S j))) as [[_ ->]|[_ ->]].
+          - apply (sh_ina _ _ _ _ _ Sh). unfold n in Hi. lia.
+          - apply (sh_inb _ _ _ _ _ Sh). unfold m in Hj. lia. }
+        destruct Hpx as [px [Hpxk Epx]]. destruct Hqy as [qy [Hqyk Eqy]].
+        pose proof (mono_inv_le (nthZ c) k (sh_cmono _ _ _ _ _ Sh)) as CIle.
+        pose proof (mono_inv_lt (nthZ c) k (sh_cmono _ _ _ _ _ Sh)) as CIlt.
+        pose proof (fun t t' => mono_lt (nthZ c) k (sh_cmono _ _ _ _ _ Sh) t' t) as Clt.
+        assert (p <= px)%nat by (apply CIle; lia).
+        assert (px < qy)%nat by (apply CIlt; lia).
+        assert (qy <= q)%nat by (apply CIle; lia).
+        assert (G : filter (fun t => (s_src (getS sl t) =? i)%nat) (seq p (q - p)) = seq px (qy - px)).
+        { rewrite <- (filter_seq_range p (q - p) px qy) by lia.
+          apply filter_ext_in. intros t Ht. apply in_seq in Ht.
+          rewrite src_getS by lia.
+          destruct (range_facts t ltac:(lia)) as [R1 R2].
+          pose proof (sg_char t i ltac:(lia) Hi) as SC.
+          assert (E1 : (px <= t)%nat <-> Z.max (nthZ a i) (nthZ b j) <= nthZ c t).
+          { rewrite <- Epx. split; intros HH; [apply c_le; lia|apply CIle; lia]. }
+          assert (E2 : (t < qy)%nat <-> nthZ c t < Z.min (nthZ a (S i)) (nthZ b (S j))).
+          { rewrite <- Eqy. split; intros HH; [apply Clt; lia|apply CIlt; lia]. }
+          destruct (Nat.eqb_spec (sg t) i) as [A|A]; destruct (Nat.leb_spec px t) as [B|B];
+            destruct (Nat.ltb_spec t qy) as [C|C]; cbn [andb]; try reflexivity; exfalso;
+            try (apply SC in A); lia. }
+        rewrite G. destruct (chain_seq (qy - px) px ltac:(lia)) as [CC HH]. specialize (HH ltac:(lia)).
+        rewrite CC, HH. cbn [andb]. replace (px + (qy - px))%nat with qy by lia.
+        rewrite (flag_c qy Hqyk), Epx, Eqy.
+        apply ieq_arith; assumption.
+      - (* empty overlap: no slice of this output reads partition i *)
+        assert (G : filter (fun t => (s_src (getS sl t) =? i)%nat) (seq p (q - p)) = []).
+        { apply filter_false. intros t Ht. apply in_seq in Ht. rewrite src_getS by lia.
+          destruct (range_facts t ltac:(lia)) as [R1 R2].
+          pose proof (sg_char t i ltac:(lia) Hi) as SC.
+          destruct (Nat.eqb_spec (sg t) i) as [A|A]; [|reflexivity]. exfalso. apply SC in A. lia. }
+        rewrite G. cbn [map chain_ok hull andb].
+        apply ieq_arith_empty; assumption.
+    Qed.
+
+    Lemma check_out_ok : check_out a b sl j (seq p (q - p)) = true.
+    Proof.
+      unfold check_out. fold n. apply andb_true_iff. split.
+      - assert (E : concat (map (group sl (seq p (q - p))) (seq 0 n)) = seq p (q - p)).
+        { unfold group.
+          rewrite (concat_groups (fun t => s_src (getS sl t)) (seq p (q - p))).
+          - apply filter_true. intros t Ht. apply in_seq in Ht. rewrite src_getS by lia.
+            destruct (sg_facts t ltac:(lia)) as [F _].
+            destruct (Nat.leb_spec 0 (sg t)); destruct (Nat.ltb_spec (sg t) (0 + n)); cbn; try reflexivity; lia.
+          - apply (sortedZ_seq (fun t => Z.of_nat (s_src (getS sl t)))). intros t Ht1 Ht2.
+            rewrite !src_getS by lia. pose proof (sg_adj t ltac:(lia)). lia. }
+        rewrite E. apply eqb_nats_refl.
+      - apply forallb_forall. intros i Hi. apply in_seq in Hi. apply check_src_ok. lia.
+    Qed.
+  End OneOut.
+End Check.
+
+Lemma shape_c0 : forall a b c d k, strict_incr a = true -> Shape a b c d k -> nthZ c 0 = nthZ a 0.
+Proof.
+  intros a b c d k Ha Sh.
+  destruct (sh_ina _ _ _ _ _ Sh 0%nat) as [t [Ht Et]].
+  { destruct (sh_sl _ _ _ _ _ Sh 0%nat (sh_kpos _ _ _ _ _ Sh)) as [_ [_ [_ [E4 _]]]]. lia. }
+  destruct t as [|t]; [exact Et|]. exfalso.
+  pose proof (sh_kpos _ _ _ _ _ Sh) as Hk.
+  destruct (sh_sl _ _ _ _ _ Sh 0%nat Hk) as [_ [_ [_ [E4 [E5 _]]]]].
+  pose proof (mono_lt (nthZ c) k (sh_cmono _ _ _ _ _ Sh) (S t) 0%nat ltac:(lia) Ht) as Hc.
+  pose proof (mono_le (nthZ a) (length a - 1) (strict_adj' a Ha) 0%nat (s_src (nth 0 d dslice)) ltac:(lia) ltac:(lia)) as Hm.
+  lia.
+Qed.
+
+Theorem repart_plan_gen_ok : forall a b,
+  strict_incr a = true -> strict_incr b = true -> (2 <= length a)%nat -> (2 <= length b)%nat ->
+  nthZ a 0 = nthZ b 0 -> lastZ a = lastZ b ->
+  exists pl, repart_plan a b false = Some pl /\ plan_ok a b pl = true.
+Proof.
+  intros a b Ha Hb Hla Hlb H0 HL.
+  rewrite (repart_plan_unfold a b Ha Hb Hla Hlb H0 HL).
+  pose proof (shapeF a b Ha Hb Hla Hlb H0 HL) as Sh.
+  set (c := cF a b) in *. set (d := dF a b) in *. set (k := kF a b) in *.
+  destruct (phase2_spec a b c d k Hb Hlb HL Sh (length b - 1) 1 0 []) as [outs [E [Hlen Hall]]]; try lia.
+  { cbn [Nat.sub]. rewrite <- H0. apply (shape_c0 a b c d k Ha Sh). }
+  rewrite E. cbn [app]. eexists. split; [reflexivity|].
+  unfold plan_ok. cbn [p_outs p_slices]. rewrite Hlen, Nat.eqb_refl. cbn [andb].
+  apply forallb_forall. intros j Hj. apply in_seq in Hj.
+  destruct (Hall j ltac:(lia)) as [p' [q' [A1 [A2 [A3 [A4 A5]]]]]].
+  rewrite A5.
+  replace (1 - 1 + j)%nat with j in A3 by lia. replace (1 + j)%nat with (S j) in A4 by lia.
+  apply (check_out_ok a b c d k Ha Hb Hla Hlb HL Sh j p' q'); try assumption; lia.
+Qed.
+
+
+Lemma strict_valid : forall l, strict_incr l = true -> (2 <= length l)%nat -> valid_divs l = true.
+Proof.
+  intros l Hs Hl. unfold valid_divs. rewrite Hs. cbn [orb]. rewrite andb_true_r. apply Nat.leb_le. exact Hl.
+Qed.
+
+(* end-to-end, unbounded: for strictly increasing divisions with equal end points the generated plan
+   exists and computes exactly the specified repartitioning on every conforming input *)
+Corollary repart_plan_correct_strict : forall (row : Type) (idx : row -> Z) (a b : list Z) (P : list (list row)),
+  strict_incr a = true -> strict_incr b = true -> (2 <= length a)%nat -> (2 <= length b)%nat ->
+  nthZ a 0 = nthZ b 0 -> lastZ a = lastZ b ->
+  respects idx a P -> parts_sorted idx P ->
+  exists pl, repart_plan a b false = Some pl /\ exec_plan idx P pl = spec_plan idx b P.
+Proof.
+  intros row idx a b P Ha Hb Hla Hlb H0 HL Hresp Hsort.
+  destruct (repart_plan_gen_ok a b Ha Hb Hla Hlb H0 HL) as [pl [E Hok]].
+  exists pl. split; [exact E|].
+  apply (plan_ok_sound row idx a b pl P (strict_valid a Ha Hla) (strict_valid b Hb Hlb) Hok Hresp Hsort).
+Qed.
+
 Check plan_ok_sound.
+Check repart_plan_gen_ok.
+Print Assumptions repart_plan_gen_ok.
+Print Assumptions repart_plan_correct_strict.
+Print Assumptions repart_plan_correct_bounded.
 Print Assumptions plan_ok_sound.
 Print Assumptions plan_gen_ok_bounded.
